@@ -5,6 +5,26 @@
 #include "arg.h"
 #include "cc.h"
 
+#ifdef CPROC_VERIF
+/* verification hook H1: one token per line as <class>\t<spelling>, so that token boundaries are observable */
+static void
+verifdump(const struct token *t)
+{
+	const char *class;
+
+	switch (t->kind) {
+	case TIDENT:     class = "ident";   break;
+	case TNUMBER:    class = "number";  break;
+	case TCHARCONST: class = "char";    break;
+	case TSTRINGLIT: class = "string";  break;
+	case TOTHER:     class = "other";   break;
+	case TNEWLINE:   class = "newline"; break;
+	default:         class = t->kind < TLBRACK ? "keyword" : "punct";
+	}
+	printf("%s\t%s\n", class, t->lit ? t->lit : t->kind == TNEWLINE ? "" : tokstr[t->kind]);
+}
+#endif
+
 static void
 usage(void)
 {
@@ -49,6 +69,14 @@ main(int argc, char *argv[])
 	ppinit();
 	if (pponly) {
 		ppflags |= PPNEWLINE;
+#ifdef CPROC_VERIF
+		if (getenv("CPROC_VERIF_TOKDUMP")) {
+			while (tok.kind != TEOF) {
+				verifdump(&tok);
+				next();
+			}
+		}
+#endif
 		while (tok.kind != TEOF) {
 			tokenprint(&tok);
 			next();
